@@ -822,6 +822,13 @@ func (g *gen) specCall(e *env, n *ast.CallExpr, want string, c *Clause) T {
 		}
 		g.declare("itag", "(declare-fun itag (Iface) Int)")
 		return T{S: and(not(sx("=", x.S, "ifnil")), sx("=", sx("itag", x.S), fmt.Sprint(g.w.typeID(gt)))), Sort: sBool}
+	case "box":
+		// box(x): x converted to an interface value (what MakeInterface produces)
+		v := arg(0, "")
+		g.ensureSort(v.Sort)
+		fn := "box." + sortID(v.Sort)
+		g.declare(fn, fmt.Sprintf("(declare-fun %s (%s) Iface)\n(declare-fun un%s (Iface) %s)", fn, v.Sort, fn, v.Sort))
+		return T{S: sx(fn, v.S), Sort: sIface}
 	case "sameslice":
 		a, b := arg(0, sSlice), arg(1, sSlice)
 		return T{S: sx("=", a.S, b.S), Sort: sBool}
